@@ -122,6 +122,19 @@ impl<'a> Builder<'a> {
                 let mut exp = RTable::new();
                 for (k, x) in &t.entries {
                     let (xv, xe) = self.value(x);
+                    if self.rng.chance(1, 6) {
+                        // look at a key that is not there, through mutable indexing, and leave it:
+                        // the placeholder this creates must never show
+                        let ghost = format!("ghost-{}", self.rng.below(3));
+                        if t.get(&ghost).is_none() {
+                            self.route("IndexMut on a missing key of an inline table (left unassigned)");
+                            let mut item = Item::Value(Value::InlineTable(std::mem::take(&mut it)));
+                            let _ = item[ghost.as_str()].as_value_mut();
+                            if let Item::Value(Value::InlineTable(back)) = item {
+                                it = back;
+                            }
+                        }
+                    }
                     match self.rng.below(4) {
                         0 => {
                             self.route("InlineTable::get_or_insert");
@@ -185,6 +198,22 @@ impl<'a> Builder<'a> {
                     }
                 }
             };
+            if self.rng.chance(1, 8) {
+                let ghost = format!("ghost-{}", self.rng.below(3));
+                if t.get(&ghost).is_none() {
+                    if self.rng.coin() {
+                        self.route("IndexMut on a missing key of a table (left unassigned)");
+                        let _ = tb[ghost.as_str()].as_value_mut();
+                    } else {
+                        self.route("IndexMut on a missing key through Item (left unassigned)");
+                        let mut wrapped = Item::Table(std::mem::take(&mut tb));
+                        let _ = wrapped[ghost.as_str()].as_table_mut();
+                        if let Item::Table(back) = wrapped {
+                            tb = back;
+                        }
+                    }
+                }
+            }
             match self.rng.below(6) {
                 0 => {
                     self.route("Table::insert_formatted");
